@@ -60,8 +60,9 @@ func checkValue(val string) bool {
 
 func checkKeyRemain(key string) bool {
 	// ( lcalpha / DIGIT / "_" / "-"/ "*" / "/" )
-	for _, v := range key {
-		if isAlphaNum(byte(v)) {
+	for i := 0; i < len(key); i++ {
+		v := key[i]
+		if isAlphaNum(v) {
 			continue
 		}
 		switch v {
